@@ -2390,3 +2390,172 @@ func ruleQuantRange(p *Prog, r *Result) {
 	}
 	r.floor("constructions of a quantile stream", n, 1)
 }
+
+// ---------------- TOKSEEN ----------------
+
+func init() {
+	register("TOKSEEN", "the parser consumes no token it has not looked at: (a) Parser.expect compares the current token's text with the wanted token's text (all operators and operator words share one token kind, so the kind alone accepts `or` for `and`); (b) in every parser method, each call of next() is reached only along ways on which, since the previous token was consumed, the current token's kind or text was compared with a constant with a positive outcome, or the token was found to be absent (a list loop that skips `whatever comes after an item` drops tokens)", ruleTokSeen)
+}
+
+func ruleTokSeen(p *Prog, r *Result) {
+	pt := p.Named("Parser")
+	if pt == nil {
+		r.undecided("anchor: Parser not found")
+		return
+	}
+	next := p.Method(pt, "next")
+	expect := p.Method(pt, "expect")
+	if next == nil || expect == nil {
+		r.undecided("anchor: (*Parser).next / expect not found")
+		return
+	}
+	isTokField := func(v ssa.Value, field string) bool {
+		o, f, base, ok := loadedField(v)
+		if !ok || o == nil || o.Obj().Name() != "Token" || f != field {
+			return false
+		}
+		_ = base
+		return true
+	}
+	// (a)
+	cmpData := false
+	allInstrs(expect, func(in ssa.Instruction) {
+		if bo, ok := in.(*ssa.BinOp); ok && (bo.Op == token.EQL || bo.Op == token.NEQ) && isTokField(bo.X, "Data") && isTokField(bo.Y, "Data") {
+			cmpData = true
+		}
+	})
+	r.add(cmpData, "expect|text", p.Pos(expect.Pos()), "expect compares the text of the current token with the text of the wanted token")
+	// (b)
+	isCurTok := func(v ssa.Value) bool { // p.tok
+		return isFieldLoad(v, "Parser", "tok")
+	}
+	positive := func(pr *ssa.BasicBlock, si int) bool {
+		a, ok := edgeAtom(pr, si)
+		if !ok {
+			return false
+		}
+		if a.Op == token.EQL {
+			if isTokField(a.X, "Tp") || isTokField(a.X, "Data") {
+				if _, isC := a.Y.(*ssa.Const); isC {
+					return true
+				}
+			}
+			if isCurTok(a.X) && isNilConst(a.Y) {
+				return true
+			}
+		}
+		return false
+	}
+	consumes := func(in ssa.Instruction) bool {
+		c, ok := in.(*ssa.Call)
+		if !ok {
+			return false
+		}
+		g := c.Call.StaticCallee()
+		if g == nil {
+			return false
+		}
+		if g == next || g == expect {
+			return true
+		}
+		// any other parser method may consume tokens
+		return g.Signature.Recv() != nil && typeName(deref(g.Signature.Recv().Type())) == "Parser" && strings.HasPrefix(g.Name(), "parse")
+	}
+	n := 0
+	// walkBack: "" when every way to instruction `upto` of block b crosses a positive look at the token after the last
+	// consuming call (a parse method whose own successful returns are all reached after such a look counts as one)
+	var returnsLooked func(g *ssa.Function, depth int) bool
+	memo := map[*ssa.Function]int{}
+	walkBack := func(fn *ssa.Function, b0 *ssa.BasicBlock, upto0 int, depth int) string {
+		bad := ""
+		seen := map[*ssa.BasicBlock]bool{}
+		var back func(b *ssa.BasicBlock, upto int)
+		back = func(b *ssa.BasicBlock, upto int) {
+			for i := upto - 1; i >= 0; i-- {
+				if consumes(b.Instrs[i]) {
+					if c, ok := b.Instrs[i].(*ssa.Call); ok {
+						if g := c.Call.StaticCallee(); g != nil && g != next && g != expect && depth < 3 && returnsLooked(g, depth+1) {
+							return
+						}
+					}
+					bad = "reached from " + p.InstrPos(b.Instrs[i]) + " without a look at the token"
+					return
+				}
+			}
+			if len(b.Preds) == 0 {
+				if fn.Name() != "Parse" { // the entry point primes the first token
+					bad = "reached from the entry without a look at the token"
+				}
+				return
+			}
+			for _, pr := range b.Preds {
+				for si, sc := range pr.Succs {
+					if sc != b {
+						continue
+					}
+					if positive(pr, si) {
+						continue
+					}
+					if seen[pr] {
+						continue
+					}
+					seen[pr] = true
+					back(pr, len(pr.Instrs))
+				}
+			}
+		}
+		back(b0, upto0)
+		return bad
+	}
+	returnsLooked = func(g *ssa.Function, depth int) bool {
+		if v, ok := memo[g]; ok {
+			return v == 1
+		}
+		memo[g] = 2
+		okAll, nret := true, 0
+		for _, b := range g.Blocks {
+			ret := retOf(b)
+			if ret == nil || len(ret.Results) == 0 {
+				continue
+			}
+			if ev := retVal(ret, len(ret.Results)-1); isErrorType(ev.Type()) && !isNilConst(ev) {
+				if _, isPhi := ev.(*ssa.Phi); !isPhi {
+					continue // failing return
+				}
+			}
+			nret++
+			if walkBack(g, b, len(b.Instrs)-1, depth) != "" {
+				okAll = false
+			}
+		}
+		if okAll && nret > 0 {
+			memo[g] = 1
+			return true
+		}
+		return false
+	}
+	for _, fn := range p.methodsOf(pt) {
+		if fn == next || fn == expect {
+			continue
+		}
+		idx := 0
+		allInstrs(fn, func(in ssa.Instruction) {
+			c, ok := in.(*ssa.Call)
+			if !ok || c.Call.StaticCallee() != next {
+				return
+			}
+			n++
+			idx++
+			at := 0
+			for i, x := range c.Block().Instrs {
+				if x == ssa.Instruction(c) {
+					at = i
+				}
+			}
+			bad := walkBack(fn, c.Block(), at, 0)
+			r.add(bad == "", fmt.Sprintf("%s|next#%d", p.FName(fn), idx), p.InstrPos(c), firstNonEmpty(bad, "the consumed token was looked at on every way here"))
+		})
+	}
+	r.floor("calls of next() in parser methods", n, 10)
+}
+
